@@ -98,6 +98,16 @@ def enumerate_faults(src, tree=None, lite=False):
             if not lite:
                 yield {'op': 'fault', 'fault': 'arglike-order', 'path': p, 'field': vf, 'text': '**kw', 'idx': 0}
                 yield {'op': 'fault', 'fault': 'arglike-order', 'path': p, 'field': 'keywords', 'text': '*s', 'idx': 'end'}
+        if ncls == 'arguments':  # parameter code that parses but may break an ordering rule; extraction with an impossible conversion
+            for text in ('p, /', '*v', '**k', 'q') if not lite else ('p, /', '**k'):
+                for i in (0, 'end'):
+                    yield {'op': 'fault', 'fault': 'arguments-order', 'path': p, 'text': text, 'idx': i}
+            if not lite:
+                na = len(node.posonlyargs) + len(node.args) + len(node.kwonlyargs) + (node.vararg is not None) + (node.kwarg is not None)
+                for i in range(na):
+                    for j in range(i + 1, na + 1):
+                        for conv in ('pos', 'arg', 'kw'):
+                            yield {'op': 'fault', 'fault': 'arguments-cut-as', 'path': p, 'start': i, 'stop': j, 'text': conv}
         for field, typ, card in O.GRAMMAR.get(ncls, ()):
             if card == '*' and typ in E.EDIT_TYPES:
                 n = len(getattr(node, field))
@@ -166,6 +176,10 @@ def apply(fst, root, op):
         return None
     if k == 'arglike-order':
         return n.put_slice(op['text'], op['idx'], op['idx'], op['field'], norm=True)
+    if k == 'arguments-order':
+        return n.put_slice(op['text'], op['idx'], op['idx'], '_all', norm=True)
+    if k == 'arguments-cut-as':
+        return n.get_slice(op['start'], op['stop'], '_all', cut=True, args_as=op['text'], norm=True)
     if k == 'slice-bad-code':
         return n.put_slice('a +', 0, op['n'], op['field'], norm=True)
     raise ValueError(k)
